@@ -221,7 +221,7 @@ def mutants(text, rng, k):
 
 
 def c12(pid, tier, replay):
-    from . import genlex, p_hdr
+    from . import genlex, p_hdr, p_lexparse
     res = core.Result(pid, "model_checking", tier)
     seed = core.seed()
     rng = random.Random(seed * 19 + 12)
@@ -251,6 +251,8 @@ def c12(pid, tier, replay):
             lt, _ = genlex.render_lsrc(ld, rng)
             for m in [lt] + mutants(lt, rng, k):
                 add("lex", m)
+                if rng.random() < 0.2:
+                    add("lex_opts", m)      # the other public entry point (flags given by the caller)
         for h in HEADERS:
             for m in [h] + mutants(h, rng, 60 if thorough else 25):
                 add("header", m)
@@ -312,8 +314,25 @@ def c12(pid, tier, replay):
                         raise core.ToolError("binding self-test (header) failed")
                     break
         run_parts(res, "TraceHeader", hl, {}, 1 if replay else (8 if thorough else 4), byid, seed)
+    # the .l parser (behind the section parser) against its transcription: exact prediction
+    ll = p_lexparse.events(items, lines)
+    res.notes["lex_outcomes_predicted"] = len(ll)
+    if ll:
+        if not replay:
+            for x in ll:
+                e = json.loads(x)
+                if e["res"]["class"] == "ok" and e["res"]["def"]["rules"]:
+                    e["res"]["def"]["rules"][0]["name_span"][1] += 1
+                    v = validate(res, "TraceLexParse", 9003, [json.dumps(e) + "\n"], {})
+                    st = dict(rejected=len(v["devs"]) > 0, corruption="name span end of the first rule + 1")
+                    res.notes["binding_selftest_lexparse"] = st
+                    if not st["rejected"]:
+                        raise core.ToolError("binding self-test (lex parser) failed")
+                    break
+        run_parts(res, "TraceLexParse", ll, {}, 1 if replay else (12 if thorough else 4), byid, seed)
     if not replay:
         p_hdr.mc(res, tier)
+        p_lexparse.mc(res, tier)
     for i in items[1:4]:
         res.sample(i)
     res.assumptions += ["a parser that does not answer within 4 s is reported as not returning",
